@@ -514,6 +514,21 @@ theorem autoReason_spec (o : Outcome) (b r : Bool) :
     (autoReason o b r = Reason.none ↔ (∃ m p, o = Outcome.served m p) ∧ (b = true → r = true)) := by
   cases o <;> cases b <;> cases r <;> simp [autoReason]
 
+/-- **request-level statement, fixed mode**: the request is reported feasible iff on the computed path — and on the
+reverse path when bidirectional — no channel has an infinite penalty and the worst channel's GSNR(0.1 nm) minus
+penalties, rounded to two decimals, is at least OSNR + margin -/
+theorem request_verdict_iff (fwd rev : Option ℝ) (osnr margin : ℝ) (bidir : Bool) :
+    fixedReason (passFixed fwd osnr margin) bidir (passFixed rev osnr margin) = Reason.none ↔
+      (∃ v, fwd = some v ∧ osnr + margin ≤ round2 v) ∧
+      (bidir = true → ∃ w, rev = some w ∧ osnr + margin ≤ round2 w) := by
+  rw [(fixedReason_spec _ _ _).1, passFixed_iff, passFixed_iff]
+
+/-- the propagation whose figures are reported for a served request is one on which the selected mode passes -/
+theorem selectMode_served_feasible (feas : (Int × Int) → Mode → Bool) (modes : List Mode) (spacing : Int) (m : Mode)
+    (p : Int × Int) (h : selectMode feas modes spacing = Outcome.served m p) : feas p m = true := by
+  obtain ⟨hp, _, _, hf, _⟩ := selectMode_spec feas modes spacing m p h
+  rw [hp]; exact hf
+
 /-! ### finding F9 (fixed in /repo as 5d202380): the loop as it was does not satisfy `selectMode_spec` -/
 
 def f9A : Mode := { id := 0, baud := 32, bitRate := 200, minSpacing := 50, offset := 0 }
